@@ -46,6 +46,7 @@ type w6Step struct {
 	Kind    string                       `json:"kind"`
 	GapMs   int64                        `json:"gap_ms"`
 	Name    string                       `json:"name,omitempty"`
+	Mode    string                       `json:"mode,omitempty"` // file: write (default), rename, other
 	Set     map[string]string            `json:"set,omitempty"`     // API payload: key -> JSON value
 	Globals map[string]string            `json:"globals,omitempty"` // file content: key -> JSON value
 	Paths   map[string]map[string]string `json:"paths,omitempty"`
@@ -300,9 +301,19 @@ func (w *w6World) Gen(rng *rand.Rand, property, tier string) (any, simrt.Sched) 
 		}
 		for j := 0; j < ns; j++ {
 			st := w6Step{GapMs: []int64{0, 0, 1, 20, 500, 1500}[rng.Intn(6)]}
-			switch k := rng.Intn(10); {
+			k := rng.Intn(10)
+			if property == "C38" {
+				// the watcher inside the server: file rewrites only, around the 10 ms and 1 s thresholds
+				k = 0
+				st.GapMs = []int64{0, 1, 9, 11, 500, 990, 1010, 1500, 2500}[rng.Intn(9)]
+			}
+			switch {
 			case k < 4: // file rewrite
 				st.Kind = "file"
+				st.Mode = []string{"", "", "", "rename", "other"}[rng.Intn(5)]
+				if property == "C38" {
+					st.Mode = []string{"", "rename", "other"}[rng.Intn(3)]
+				}
 				n := []int{0, 1, 1, 1, 2, 3, 8, 30}[rng.Intn(8)]
 				mutate(fileG, n)
 				if rng.Intn(3) == 0 {
@@ -341,14 +352,14 @@ func (w *w6World) Gen(rng *rand.Rand, property, tier string) (any, simrt.Sched) 
 			}
 			bu.Steps = append(bu.Steps, st)
 		}
-		if rng.Intn(6) == 0 {
+		if property != "C38" && rng.Intn(6) == 0 {
 			// a burst of patches of one live path that only touch parameters applied in place
 			bu.Steps = nil
 			for j, n := 0, 2+rng.Intn(2); j < n; j++ {
 				bu.Steps = append(bu.Steps, w6Step{Kind: "ppatch", Name: "p1", GapMs: []int64{0, 0, 0, 1}[rng.Intn(4)], Set: w6HotFields(rng, i*4+j)})
 			}
 		}
-		if rng.Intn(12) == 0 {
+		if property != "C38" && rng.Intn(12) == 0 {
 			bu.Fail =[]string{"rtsp.Server", "rtmp.Server", "hls.Server", "webrtc.Server", "srt.Server", "moq.Server", "api.API", "metrics.Metrics", "pprof.PPROF", "playback.Server"}[rng.Intn(10)]
 		}
 		b.Bursts = append(b.Bursts, bu)
@@ -818,10 +829,35 @@ func (w *w6World) Run(t *testing.T, sc *simrt.Scenario, cfg simrt.Config) simrt.
 					var err error
 					switch st.Kind {
 					case "file":
-						os.WriteFile(confPath, []byte(w6Render(st.Globals, st.Paths)), 0o644)
-						select {
-						case fw.Events <- fsnotify.Event{Name: confPath, Op: fsnotify.Write}:
-						case <-p.done:
+						// the file always has complete content when a notification can be seen
+						emit := func(name string, op fsnotify.Op) {
+							select {
+							case fw.Events <- fsnotify.Event{Name: name, Op: op}:
+							case <-p.done:
+							}
+						}
+						content := []byte(w6Render(st.Globals, st.Paths))
+						switch st.Mode {
+						case "rename":
+							// editor style: temporary file, then renamed over the configuration
+							tmp := confPath + ".tmp"
+							os.WriteFile(tmp, content, 0o644)
+							emit(tmp, fsnotify.Create)
+							emit(tmp, fsnotify.Write)
+							os.Rename(tmp, confPath)
+							emit(tmp, fsnotify.Rename)
+							emit(confPath, fsnotify.Create)
+						case "other":
+							// an unrelated file of the same directory changes just before
+							o := filepath.Join(dir, "other.txt")
+							os.WriteFile(o, []byte("x"), 0o644)
+							emit(o, fsnotify.Create)
+							emit(o, fsnotify.Write)
+							os.WriteFile(confPath, content, 0o644)
+							emit(confPath, fsnotify.Write)
+						default:
+							os.WriteFile(confPath, content, 0o644)
+							emit(confPath, fsnotify.Write)
 						}
 					case "global":
 						var v conf.OptionalGlobal
